@@ -37,3 +37,11 @@ def apply(ctx):
         ctx.known_hits.append(hit["id"])
         ctx.cov.setdefault("known_finding_replays", {}).setdefault(hit["id"], v.get("replay"))
     ctx.violations = keep
+
+
+def unexplained(ctx):
+    """The violations that neither known_findings.json nor the local file explains."""
+    sigs = {k.get("signature") for k in core.load_known()
+            if k.get("property") == ctx.pid and k.get("status") == "finding"}
+    sigs |= {k.get("signature") for k in load(ctx.pid)}
+    return [v for v in ctx.violations if v.get("signature") is None or v.get("signature") not in sigs]
